@@ -41,7 +41,7 @@ def mutants(prog):
         ("inv shortcut unlinked", "deepali.spatial.base", "SpatialTransform.inv", "return self.inverse(link=True, update_buffers=True)", "return self.inverse(link=False, update_buffers=False)", "via=inv"),
         ("svf inverse: buffer registered on the original", "deepali.spatial.nonrigid", "StationaryVelocityFieldTransform.inverse", "inv.register_buffer('u', u, persistent=False)", "self.register_buffer('u', u, persistent=False)", "T67.inverse-velocity"),
         ("svf inverse: forward exponential", "deepali.spatial.nonrigid", "StationaryVelocityFieldTransform.inverse", "u = inv.exp(v)", "u = self.exp(v)", "T67.inverse-velocity"),
-        ("svf grid_: exp module rebuilt without its scale", "deepali.spatial.nonrigid", "StationaryVelocityFieldTransform.grid_", "self.exp.align_corners = grid.align_corners()", "self.exp = ExpFlow(steps=self.exp.steps, align_corners=grid.align_corners())", "T67.inverse-velocity"),
+        ("svf grid_: exp module rebuilt without its scale", "deepali.spatial.nonrigid", "StationaryVelocityFieldTransform.grid_", "exp = shallow_copy(self.exp)", "exp = ExpFlow(steps=self.exp.steps, align_corners=grid.align_corners())", "T67.inverse-velocity"),
     ]
     for name, mod, fn, old, new, expect in specs:
         ov = source_sub(prog, mod, fn, old, new)
